@@ -215,4 +215,7 @@ def check(model, tier):
         run.fail("R06.4", "Join.applied_columns:union", f"Join.applied_columns returns {rets}, not the union of both operands' columns", fi=jn)
     structure.r_marker_reapply(ctx, "R06.8")
     run.assume("leaf bounds and columns declared by callers are truthful")
+    from ..rules.foundation import run_foundation
+
+    run_foundation(ctx, "06")
     return run
